@@ -348,7 +348,7 @@ def gen(rng, quick):
     # (1) procedure-following masters: sizes around the segment boundary, 1..8 sections, up to 64 KiB
     shapes = [[1], [5], [236], [237], [235, 1], [472], [473], [3, 300], [1, 1, 1, 1, 1, 1, 1, 1], [236, 236, 236], [1000, 7, 2000]]
     shapes += [[rng.range(1, 700) for _ in range(rng.range(1, 8))] for _ in range(6 if quick else 60)]
-    shapes += [[8192] * 8, [65535], [1, 65534], [30000, 35535]] if quick else [[8192] * 8, [65535], [1, 65534], [30000, 35535], [65536], [9000, 9001, 9002, 9003, 9004, 9005, 9006, 2493]]
+    shapes += [[8192] * 8, [65535], [65536], [1, 65534], [30000, 35535]] if quick else [[8192] * 8, [65535], [1, 65534], [30000, 35535], [65536], [9000, 9001, 9002, 9003, 9004, 9005, 9006, 2493]]
     for i, sh in enumerate(shapes):
         f = File(sh, seed=i + 1)
         out.append(("dl.good.%d" % i, "dl", True, c0, f, download_script(c0, f), 1))
